@@ -547,6 +547,8 @@ class ArrayInterp:
                 return [ast.literal_eval(x) for x in e.elts]
             except Exception:
                 return None
+        if isinstance(e, ast.Call) and isinstance(e.func, ast.Name) and e.func.id in ('tuple', 'list') and len(e.args) == 1 and not e.keywords:
+            return self._const_iter(e.args[0])
         if isinstance(e, ast.Call) and (self.qualify(e.func) or '').endswith('itertools.product') and not e.keywords:
             parts = [self._const_iter(a) for a in e.args]
             if any(p is None for p in parts):
